@@ -26,7 +26,7 @@ for p in props:
             "category": "proof",
             "text": cfg.get("level_text", f"{len(cfg['theorems'])} Lean 4 theorems ({kinds.count('full')} at full strength, {len(kinds) - kinds.count('full')} partial/witness) about the executable model of the anchored code, for all inputs/histories they quantify over; the model is regenerated from /repo (constants, comparators, tables) and run against the real code on seeded op sequences on every run; independent property monitors on the real code provide the failing-input search." + (" PARTIAL: " + partial if partial else "")),
             "design_ref": f"DESIGN.md section 5 ({pid})"},
-        "level_note": "Trusted: Lean kernel; axioms propext/Classical.choice/Quot.sound (audited per theorem); py/extract.py; the fake world + drivers; the hand-written Spec side. " + "; ".join(cfg.get("assumptions", [])),
+        "level_note": "Trusted: Lean kernel; axioms propext/Classical.choice/Quot.sound (audited per theorem); py/extract.py and py/py2lean.py (T1); the fake world + drivers; the hand-written Spec side. " + "; ".join(cfg.get("assumptions", [])),
     })
 m = {
     "version": 1,
